@@ -539,6 +539,27 @@ theorem C06_wand_union_collects_topk (base N fuel : Nat) (scorers : List (BlockW
   rw [hout, he]
   exact C06_heap_topk natGt natGt_strictWeak N _ (segEntries_asc _ _ _ _)
 
+/-- `block_wand_single_scorer` (TermQuery) + the `TopNHeap` callback = the best N of the segment's
+postings of the term (positive scores, ascending docs), given `UB_block` for the blocks as the
+driver sees them. -/
+theorem C06_wand_single_collects_topk (base N : Nat) (blocks : List (Wand.Block Nat))
+    (hub : Wand.ubBlock natGt blocks) (hpos : ∀ p, p ∈ blocks.flatMap (·.docs) → 0 < p.2)
+    (hasc : (blocks.flatMap (·.docs)).Pairwise (fun a b => a.1 < b.1)) :
+    (Wand.wandSingle natGt (heapCb base) (Heap.new N, 0) blocks).1.heap
+      = topK (le natGt) N 0 ((blocks.flatMap (·.docs)).map fun p => (⟨p.2, base + p.1⟩ : Entry Nat)) := by
+  rw [C06_wand_single_skipsBelow natGt natGt_strictWeak (heapCb base) blocks hub (Heap.new N, 0)]
+  have he := exhaustive_heapCb base (blocks.flatMap (·.docs)) (Heap.new N) (heapWf_new N) hpos
+  have h0 : thrNat (Heap.new N) = 0 := rfl
+  rw [h0] at he
+  rw [he]
+  refine C06_heap_topk natGt natGt_strictWeak N _ ?_
+  unfold AddrAsc
+  rw [pairwise_map]
+  exact hasc.imp fun h => by simp only; omega
+
+example : (Wand.wandSingle natGt (heapCb 10) (Heap.new 1, 0) [⟨[(0, 5), (3, 9)], 9⟩, ⟨[(7, 2), (8, 6)], 6⟩, ⟨[(20, 7)], 8⟩]).1.heap
+    = [⟨9, 13⟩] := by decide
+
 /-- the same for `block_wand_intersection` -/
 theorem C06_wand_intersection_collects_topk (base N fuel : Nat) (scorers : List (BlockWand.TS Nat))
     (hwf : ∀ x, x ∈ scorers → BlockWand.WFI x) (out : Heap Nat × Nat)
